@@ -1,5 +1,5 @@
 SPECIFICATION Spec
 CONSTANTS Depth = 4  Deep = TRUE  Emit = FALSE
-INVARIANTS Independent Shape
+INVARIANTS Independent Shape ArgsOK
 PROPERTY OnlyTarget
 CHECK_DEADLOCK FALSE
